@@ -282,7 +282,10 @@ def l1_l2(e: Engine, rep: Report):
             'not len(self.queue) == 0', 'self.queue', 'len(self.queue)')}
         extra = [a for a in (st or ()) if a not in need and
                  a not in pending and
-                 ('self.queue' in a[1] or 'self.pool' in a[1])]
+                 ('self.queue' in a[1] or 'self.pool' in a[1] or any(
+                     isinstance(y, ast.Name) and
+                     y.id in ctx.func.params and y.id != 'self'
+                     for y in _names_of(a[1])))]
         rep.check(not extra, 'L2', where,
                   'respawn whenever requests are pending and no client is '
                   'left', 'the respawn is subject to an additional '
@@ -1132,3 +1135,12 @@ def l15(e: Engine, rep: Report):
                 reason='inside RelayPoolClient.poll')
     if n < 1:
         rep.error('anchor vanished: queue.popleft() in RelayPoolClient.poll')
+
+
+def _names_of(text):
+    import re as _re
+    try:
+        return list(ast.walk(ast.parse(_re.sub(r'#\d+', '', text),
+                                       mode='eval')))
+    except SyntaxError:
+        return []
